@@ -257,7 +257,17 @@ class Executor:
         n = e.id
         if n in st.loc:
             if n in st.stale:
-                raise Unbound('local %s aliases a container that was modified through another path' % n)
+                raise Unbound('local %s aliases a container whose path was re-bound to another object' % n)
+            org = st.origin.get(n)
+            if org is not None and isinstance(st.loc[n].t, (TList, TDict, TRec)):
+                # a local bound to a container that lives at an l-value path is a REFERENCE: it sees every
+                # in-place mutation made through other paths (callee contracts mutate in place)
+                try:
+                    cur = self.read_origin(org, st)
+                    if cur.t == st.loc[n].t:
+                        st.loc[n] = cur
+                except (Unbound, IndexError):
+                    pass
             return [Res(st, st.loc[n])]
         if n in self.module_consts:
             return [Res(st, self.module_consts[n])]
@@ -592,6 +602,12 @@ class Executor:
         if isinstance(t, TSet):
             x = self.coerce(x, t.elem, s)
             return z3.Select(c.z, x.z)
+        from .calls import TKeys
+        if isinstance(t, TKeys):
+            x = self.coerce(x, t.d.key, s)
+            return z3.Select(d_dom(t.d, c.z), x.z)
+        if t is STR and x.t is STR:
+            return STR_CONTAINS(c.z, x.z)
         if isinstance(t, TDict):
             x = self.coerce(x, t.key, s)
             return z3.Select(d_dom(t, c.z), x.z)
@@ -710,14 +726,24 @@ class Executor:
                     else:
                         raise Unbound('store to undeclared field %s.%s' % (o.t.cls, target.attr))
                 s.write(o.z, cls, target.attr, val)
-                self.invalidate_aliases(s, find_field(cls, target.attr)[0], target.attr, None)
+                self.invalidate_aliases(s, find_field(cls, target.attr)[0], target.attr, None, rebind_depth=0)
                 return out + [Res(s)]
             return bind(self.ev(target.value, st), f)
         if isinstance(target, ast.Subscript):
             def f(vals, s):
                 c, k = vals
-                return bind(self.setitem(c, k, val, s, node),
-                            lambda newc, s2: self.assign_container(target.value, newc, s2, node))
+                rs = bind(self.setitem(c, k, val, s, node),
+                          lambda newc, s2: self.assign_container(target.value, newc, s2, node))
+                if isinstance(val.t, (TList, TDict, TRec)):
+                    # the element now IS another container object: references to the old one are detached
+                    e, depth = target, 0
+                    while isinstance(e, ast.Subscript):
+                        e, depth = e.value, depth + 1
+                    if isinstance(e, ast.Attribute):
+                        for r in rs:
+                            if r.exc is None:
+                                self.invalidate_aliases(r.st, None, e.attr, None, rebind_depth=depth)
+                return rs
             return bind(self.ev_list([target.value, target.slice], st), f)
         raise Unbound('assignment target %s' % type(target).__name__)
 
@@ -806,14 +832,19 @@ class Executor:
             return st.origin.get(expr.id)
         return None
 
-    def invalidate_aliases(self, st, cls, f, through):
+    def invalidate_aliases(self, st, cls, f, through, rebind_depth=None):
+        """rebind_depth: None = in-place mutation only (aliases stay valid, they are re-read lazily);
+        k = the path (field f, k subscripts) now holds a different object: aliases at that depth or deeper are detached"""
+        if rebind_depth is None:
+            return
         for n, org in list(st.origin.items()):
             if n == through:
                 continue
-            o = org
+            o, depth = org, 0
             while o[0] == 'sub':
                 o = o[1]
-            if o[3] == f:
+                depth += 1
+            if o[3] == f and depth >= rebind_depth:
                 st.stale.add(n)
 
     def setitem(self, c, k, v, s, node):
@@ -859,6 +890,7 @@ class Executor:
 PRIM_TYPES = {'int', 'float', 'str', 'bool', 'list', 'dict', 'tuple'}
 RDIV = z3.Function('rdiv', z3.RealSort(), z3.RealSort(), z3.RealSort())
 STRCAT = z3.Function('strcat', StrS, StrS, StrS)
+STR_CONTAINS = z3.Function('str_contains', StrS, StrS, z3.BoolSort())
 
 
 class TDictDisplay(Ty):
